@@ -4,6 +4,7 @@ inversion of the checks of the conversions.
 -/
 import KmipModel.ConvertObjectsSpec
 import KmipModel.Props.C05
+set_option linter.unusedSimpArgs false
 namespace Kmip.ConvObj
 open Kmip.Convert
 
@@ -593,6 +594,46 @@ theorem engine_of_coreToPie_key (kk : KeyKind) (kb? : Option CoreKeyBlock) (hwf 
 
 
 /-! ### Register ; database ; Get -/
+/-- what a successful conversion of a Secret Data says about it (after the repair 683f968: no wrapping data) -/
+theorem coreToPie_secretData_ok {t : Fld Nat} {kb? : Option CoreKeyBlock} {p : PieObj}
+    (h : coreToPie (.secretData t kb?) = .ok p) :
+    ∃ kb t' value n, kb? = some kb ∧ t = .val t' ∧ kb.keyValue = some ⟨.bytes value, n⟩ ∧ kb.wrapping = none ∧
+      p = freshPie (.secretData freshCrypto (some t')) (some value) := by
+  simp only [coreToPie, bind_ok'] at h
+  obtain ⟨t', ht, value, hval, kb, hkb, h⟩ := h
+  cases kb? with
+  | none => simp [keyBlock, attrErr] at hkb
+  | some kb0 =>
+    simp only [keyBlock, pure_ok'] at hkb
+    subst hkb
+    obtain ⟨n, hkv⟩ := materialValue_ok hval
+    have et := optFld_of_fldValue ht
+    cases hw : kb0.wrapping with
+    | some w => simp [hw, typeErr] at h
+    | none =>
+      simp only [hw, Option.isSome_none, Bool.false_eq_true, if_false] at h
+      cases t' with
+      | none => simp [typeErr] at h
+      | some t' =>
+        simp only [pure_ok'] at h
+        exact ⟨kb0, t', value, n, rfl, et.symm, hkv, hw, h.symm⟩
+
+/-- what a successful conversion of a Split Key says about it (after the repair 8b96c42: the prime field size fits) -/
+theorem coreToPie_splitKey_ok {s : SplitFields} {kb? : Option CoreKeyBlock} {p : PieObj}
+    (h : coreToPie (.splitKey s kb?) = .ok p) :
+    ∃ kb alg len value format n, kb? = some kb ∧ optFld alg = kb.alg ∧ optFld len = kb.len ∧
+      optFld format = kb.format ∧ kb.keyValue = some ⟨.bytes value, n⟩ ∧
+      chkPrimeFieldSize s.primeFieldSize = .ok () ∧
+      p = freshPie (.splitKey freshCrypto ⟨alg, len, format, toColumns kb.wrapping⟩ s) (some value) := by
+  cases kb? with
+  | none => simp [coreToPie, keyBlock, attrErr, bind, Except.bind] at h
+  | some kb =>
+    simp only [coreToPie, keyBlock, bind_ok', pure_ok'] at h
+    obtain ⟨_, rfl, alg, halg, len, hlenv, value, hval, format, hfmt, _, hprime, h⟩ := h
+    obtain ⟨n, hkv⟩ := materialValue_ok hval
+    exact ⟨_, alg, len, value, format, n, rfl, optFld_of_fldValue halg, optFld_of_fldValue hlenv,
+      optFld_of_fldValue hfmt, hkv, hprime, h.symm⟩
+
 /-- the key wrapping columns a conversion from a core secret produces are typed -/
 theorem coreToPie_cols (c : CoreObj) (hwf : CoreWf c) (p : PieObj) (h : coreToPie c = .ok p) (k : PieKey)
     (hk : p.spec.key? = some k) : colsTyped k.cols = true := by
@@ -629,23 +670,15 @@ theorem coreToPie_cols (c : CoreObj) (hwf : CoreWf c) (p : PieObj) (h : coreToPi
         subst h
         simp only [freshPie, PieSpecific.key?, Option.some.injEq] at hk; subst hk; exact ht
   | splitKey s kb? =>
-    cases kb? with
-    | none => simp [coreToPie, keyBlock, attrErr, bind, Except.bind] at h
-    | some kb =>
-      simp only [CoreWf, coreChecks, bind_ok'] at hwf
-      obtain ⟨_, hkb, _⟩ := hwf
-      obtain ⟨_, hwrap⟩ := kbChecks_ok hkb
-      have ht := colsTyped_toColumns hwrap
-      simp only [coreToPie, keyBlock, bind_ok', pure_ok'] at h
-      obtain ⟨_, rfl, alg, _, len, _, value, _, format, _, h⟩ := h
-      subst h
-      simp only [freshPie, PieSpecific.key?, Option.some.injEq] at hk; subst hk; exact ht
+    obtain ⟨kb, alg, len, value, format, n, rfl, _, _, _, _, _, rfl⟩ := coreToPie_splitKey_ok h
+    simp only [CoreWf, coreChecks, bind_ok'] at hwf
+    obtain ⟨_, hkb, _⟩ := hwf
+    obtain ⟨_, hwrap⟩ := kbChecks_ok hkb
+    have ht := colsTyped_toColumns hwrap
+    simp only [freshPie, PieSpecific.key?, Option.some.injEq] at hk; subst hk; exact ht
   | secretData t kb? =>
-    simp only [coreToPie, bind_ok'] at h
-    obtain ⟨t', _, value, _, h⟩ := h
-    cases t' with
-    | none => simp [typeErr] at h
-    | some t' => simp only [pure_ok'] at h; subst h; simp [freshPie, PieSpecific.key?] at hk
+    obtain ⟨kb, t', value, n, _, _, _, _, rfl⟩ := coreToPie_secretData_ok h
+    simp [freshPie, PieSpecific.key?] at hk
   | opaqueObj t v =>
     simp only [coreToPie, bind_ok'] at h
     obtain ⟨t', _, h⟩ := h
@@ -701,9 +734,9 @@ theorem engineKb_storable (kb : CoreKeyBlock) (h : kbStorable kb) : engineKb kb 
 
 theorem secretKb_storable (kb : CoreKeyBlock) (h : kbSecretStorable kb) : secretKb kb = kb := by
   obtain ⟨format, compression, keyValue, alg, len, wrapping⟩ := kb
-  obtain ⟨hf, hc, hkv, ha, hl, hw⟩ := h
-  simp only at hf hc hkv ha hl hw
-  subst hf hc ha hl hw
+  obtain ⟨hf, hc, hkv, ha, hl⟩ := h
+  simp only at hf hc hkv ha hl
+  subst hf hc ha hl
   have h1 : keyValue.map (fun kv => { kv with attrs := 0 }) = keyValue := by
     cases keyValue with
     | none => rfl
@@ -717,6 +750,177 @@ theorem pieOk_objectType {p : PieObj} (h : PieOk p) : p.objectType = some p.kind
   unfold PieOk pieOk at h
   simp only [Bool.and_eq_true, beq_iff_eq] at h
   exact h.1
+
+
+
+theorem normKb_storable (kb : CoreKeyBlock) (h : kbStorable kb) : normKb kb = kb := by
+  obtain ⟨format, compression, keyValue, alg, len, wrapping⟩ := kb
+  obtain ⟨hc, hkv, ha, hl, hw⟩ := h
+  simp only at hc hkv ha hl hw
+  subst hc
+  have h1 : keyValue.map (fun kv => { kv with attrs := 0 }) = keyValue := by
+    cases keyValue with
+    | none => rfl
+    | some kv =>
+      obtain ⟨m, n⟩ := kv
+      simp only [Option.map_some, Option.getD_some] at hkv
+      subst hkv; rfl
+  have h2 : fromColumns (toColumns wrapping) = wrapping := by
+    cases wrapping with
+    | none => exact Kmip.C05.wrapping_absent
+    | some w => exact Kmip.C05.wrapping_roundtrip w hw
+  have h4 : (match len with | .unset => Fld.val 0 | l => l) = len := by
+    cases len <;> first | rfl | exact absurd rfl hl
+  simp only [normKb, h1, h2, h4]
+
+
+/-! ### what Register accepts can be stored -/
+theorem chkInteger_fits {n : Int} (h : chkInteger n = .ok ()) : chk64 n = .ok () := by
+  unfold chkInteger at h
+  split at h
+  · simp [valErr] at h
+  · split at h
+    · simp [valErr] at h
+    · have : fits64 n = true := by simp [fits64]; omega
+      simp [chk64, this]; rfl
+
+theorem chkInteger?_fits {n : Option Int} (h : chkInteger? n = .ok ()) : chk64? n = .ok () := by
+  cases n with
+  | none => rfl
+  | some n => exact chkInteger_fits h
+
+theorem chkCpAt_64 {i : Nat} {v : FV} (h : chkCpAt i v = .ok ()) : chk64FV v = .ok () := by
+  cases v with
+  | int n =>
+    unfold chkCpAt at h
+    split at h
+    · simp [chkEnum, typeErr] at h
+    · split at h
+      · simp [chkBool, typeErr] at h
+      · exact chkInteger_fits h
+  | _ => rfl
+
+theorem chkCpFrom_forM {l : List FV} : ∀ {i : Nat}, chkCpFrom i l = .ok () → l.forM chk64FV = .ok () := by
+  induction l with
+  | nil => intro _ _; rfl
+  | cons v rest ih =>
+    intro i h
+    obtain ⟨h1, h2⟩ := (chkCpFrom_cons i v rest).mp h
+    show (do chk64FV v; rest.forM chk64FV) = Except.ok ()
+    rw [chkCpAt_64 h1]; exact ih h2
+
+theorem noneCp_forM : noneCp.forM chk64FV = .ok () := by rfl
+
+theorem cpColumns_forM {cp : Option (List FV)} (h : match cp with | some l => chkCpFrom 0 l = .ok () | none => True) :
+    (cpColumns cp).forM chk64FV = .ok () := by
+  cases cp with
+  | none => exact noneCp_forM
+  | some l =>
+    simp only [cpColumns]
+    by_cases hl : l.length = 13
+    · simp only [hl, if_true]; exact chkCpFrom_forM h
+    · simp only [hl, if_false]; exact noneCp_forM
+
+theorem keyInfo_forM {k : KeyInfo} (h : chkKeyInfo k = .ok ()) : (cpColumns k.cp).forM chk64FV = .ok () := by
+  simp only [chkKeyInfo, bind_ok'] at h
+  obtain ⟨_, _, hc⟩ := h
+  apply cpColumns_forM
+  cases hcp : k.cp with
+  | none => trivial
+  | some l => simpa [hcp] using hc
+
+theorem toColumns_forM {w : Option WrapDict} (h : chkWrap? w = .ok ()) :
+    (toColumns w).ekiCp.forM chk64FV = .ok () ∧ (toColumns w).mskiCp.forM chk64FV = .ok () := by
+  cases w with
+  | none => exact ⟨noneCp_forM, noneCp_forM⟩
+  | some w =>
+    simp only [chkWrap?, chkWrap, bind_ok'] at h
+    obtain ⟨_, _, _, he, _, hs, _⟩ := h
+    constructor
+    · cases hw : w.eki with
+      | none => simp only [toColumns, hw]; exact noneCp_forM
+      | some k => simp only [toColumns, hw]; rw [hw] at he; exact keyInfo_forM he
+    · cases hw : w.mski with
+      | none => simp only [toColumns, hw]; exact noneCp_forM
+      | some k => simp only [toColumns, hw]; rw [hw] at hs; exact keyInfo_forM hs
+
+theorem chkKey64_of_core {kb : CoreKeyBlock} (hkb : kbChecks kb = .ok ()) {alg : Option Nat} {len : Option Int}
+    {format : Option Nat} (elen : optFld len = kb.len) : chkKey64 ⟨alg, len, format, toColumns kb.wrapping⟩ = .ok () := by
+  obtain ⟨hlen, hwrap⟩ := kbChecks_ok hkb
+  obtain ⟨h1, h2⟩ := toColumns_forM hwrap
+  have h0 : chk64? len = .ok () := by
+    cases len with
+    | none => rfl
+    | some l => exact chkInteger_fits (hlen l elen.symm)
+  simp only [chkKey64, bind_ok']
+  exact ⟨(), h0, (), h1, h2⟩
+
+theorem chkSpec64_mapCrypto (s : PieSpecific) (f : PieCrypto → PieCrypto) : chkSpec64 (s.mapCrypto f) = chkSpec64 s := by
+  cases s <;> rfl
+
+/-- the integers of an object converted from a core secret fit the database -/
+theorem coreToPie_spec64 (c : CoreObj) (hwf : CoreWf c) (p : PieObj) (h : coreToPie c = .ok p) :
+    chkSpec64 p.spec = .ok () := by
+  cases c with
+  | certificate t v =>
+    simp only [coreToPie] at h
+    split at h
+    · simp only [pure_ok'] at h; subst h; rfl
+    · simp [typeErr] at h
+  | key kk kb? =>
+    cases kb? with
+    | none => simp [coreToPie, buildPieKey, keyBlock, attrErr, bind, Except.bind] at h
+    | some kb =>
+      have hkb : kbChecks kb = .ok () := hwf
+      simp only [coreToPie, buildPieKey, keyBlock, bind_ok', pure_ok'] at h
+      obtain ⟨_, rfl, alg, _, len, hlenv, value, _, format, _, h⟩ := h
+      have elen := optFld_of_fldValue hlenv
+      cases kk with
+      | symmetric =>
+        simp only [bind_ok'] at h
+        obtain ⟨_, _, h⟩ := h
+        split at h
+        · simp [typeErr] at h
+        · simp only [pure_ok'] at h; subst h
+          exact chkKey64_of_core hkb elen
+      | publicKey =>
+        simp only [bind_ok', pure_ok'] at h
+        obtain ⟨_, _, h⟩ := h
+        subst h
+        exact chkKey64_of_core hkb elen
+      | privateKey =>
+        simp only [bind_ok', pure_ok'] at h
+        obtain ⟨_, _, h⟩ := h
+        subst h
+        exact chkKey64_of_core hkb elen
+  | splitKey s kb? =>
+    obtain ⟨kb, alg, len, value, format, n, rfl, _, elen, _, _, hprime, rfl⟩ := coreToPie_splitKey_ok h
+    simp only [CoreWf, coreChecks, bind_ok'] at hwf
+    obtain ⟨_, hkb, hs⟩ := hwf
+    simp only [chkSplit, bind_ok'] at hs
+    obtain ⟨_, h1, _, h2, h3⟩ := hs
+    have hp : chk64? s.primeFieldSize = .ok () := by
+      cases hpf : s.primeFieldSize with
+      | none => rfl
+      | some n =>
+        simp only [hpf, chkPrimeFieldSize] at hprime
+        split at hprime
+        · rename_i hf; simp [chk64?, chk64, hf]; rfl
+        · simp [valErr] at hprime
+    simp only [freshPie, chkSpec64, chkSplit64, bind_ok']
+    exact ⟨(), chkKey64_of_core hkb elen, (), chkInteger?_fits h1, (), chkInteger?_fits h2, (), chkInteger?_fits h3, hp⟩
+  | secretData t kb? =>
+    obtain ⟨kb, t', value, n, _, _, _, _, rfl⟩ := coreToPie_secretData_ok h
+    rfl
+  | opaqueObj t v =>
+    simp only [coreToPie, bind_ok'] at h
+    obtain ⟨t', _, h⟩ := h
+    cases v with
+    | none => simp [attrErr] at h
+    | some v =>
+      cases t' with
+      | none => simp [typeErr] at h
+      | some t' => simp only [pure_ok'] at h; subst h; rfl
 
 
 end Kmip.ConvObj
